@@ -7,6 +7,7 @@ ADT definition of ParseError (field of type L -> loc_op(field), (L,T,L) -> (loc_
 loc_op(.2)), E -> err_op(field), anything else -> unchanged, same variant).
 """
 from . import core, symex
+from .core import callee_of, origins
 from .report import Report
 
 LEVEL = "proof"
@@ -119,9 +120,107 @@ def run(tier):
                 rep.ob("wrapper.identity-elsewhere", "%s slot %d" % (name, i), ident,
                        "slot %d is not an identity closure (got %s)" % (i, symex.show_term(a)),
                        key="wrapper:%s:slot%d" % (name, i), file=b.relfile(), line=b.line, fn=b.path)
+    display_rules(rep, f)
     fr = f.one(r"^<lalrpop_util::ParseError<L, T, E> as std::convert::From<E>>::from$")
     r = symex.term_eval(f, fr)
     ok = len(r) == 1 and r[0][0] and r[0][0][0] == "adt" and r[0][0][1].endswith("::User") and r[0][0][3] == (("sym", "arg1"),)
     rep.ob("from.builds-user", fr.path, ok, "From<E>::from returns %s" % [symex.show_term(x[0]) for x in r],
            key="from:not-user", file=fr.relfile(), line=fr.line, fn=fr.path)
     return rep
+
+
+DOCUMENTED = {
+    "User": "{error}",
+    "InvalidToken": "Invalid token at {location}",
+    "UnrecognizedEof": "Unrecognized EOF found at {location}",
+    "UnrecognizedToken": "Unrecognized token `{token}` found at {start}:{end}",
+    "ExtraToken": "Extra token {token} found at {start}:{end}",
+}
+
+
+def eval_sep_arms(arms, i, n):
+    """evaluate the `match i { ... }` arms of fmt_expected (syntax) for index i of a list of length n"""
+    import re
+    for pat, val in arms:
+        p = pat.strip()
+        if re.fullmatch(r"\d+", p):
+            if i == int(p):
+                return val
+            continue
+        if p == "_":
+            return val
+        m = re.fullmatch(r"_\s+if\s+i\s*(<|<=)\s*expected\s*\.\s*len\s*\(\s*\)\s*(?:-\s*(\d+))?", p)
+        if m:
+            bound = n - int(m.group(2) or 0)
+            if (i < bound) if m.group(1) == "<" else (i <= bound):
+                return val
+            continue
+        m = re.fullmatch(r"_\s+if\s+i\s*\+\s*(\d+)\s*(<|<=)\s*expected\s*\.\s*len\s*\(\s*\)", p)
+        if m:
+            lhs = i + int(m.group(1))
+            if (lhs < n) if m.group(2) == "<" else (lhs <= n):
+                return val
+            continue
+        return None
+    return None
+
+
+def display_rules(rep, f):
+    """Display: the per-variant templates are the documented ones, spans are bound start/token/end in tuple
+    order, and the expected list renders as `\\nExpected one of a, b or c` (abstract evaluation of the
+    separator arms for lists of length 0..4)."""
+    import re
+    T = f.tmpl_util
+    arms = [m for m in T.macros if m["macro"] == "write" and re.search(r"<ParseError<L,T,E>\s*as\s*(fmt::)?Display>::fmt$", m["fn"])]
+    rep.floor("Display arms of ParseError", len(arms), 5)
+    seen = set()
+    for m in arms:
+        pat = [g["pat"] for g in m["guards"] if g["kind"] == "match"]
+        vn = re.match(r"\s*(\w+)", pat[-1]).group(1) if pat else "?"
+        seen.add(vn)
+        ok = DOCUMENTED.get(vn) == m["fmt"]
+        rep.ob("display.variant-template", "ParseError::%s => %r" % (vn, m["fmt"]), ok,
+               "Display of %s prints %r, documented form is %r" % (vn, m["fmt"], DOCUMENTED.get(vn)), key="display:%s" % vn,
+               file=m["file"], line=m["line"], fn=m["fn"])
+        if "start" in (m["fmt"] or ""):
+            tup = re.search(r"token\s*:\s*\(\s*ref\s+(\w+)\s*,\s*ref\s+(\w+)\s*,\s*ref\s+(\w+)\s*\)", pat[-1])
+            rep.ob("display.span-binding-order", "ParseError::%s binds %s" % (vn, tup.groups() if tup else "?"), bool(tup) and tup.groups() == ("start", "token", "end"),
+                   "the token triple is not bound as (start, token, end): the printed span is swapped", key="display-binding:%s" % vn,
+                   file=m["file"], line=m["line"], fn=m["fn"])
+    rep.ob("display.all-variants", sorted(seen), seen == set(DOCUMENTED), "Display arms %s" % sorted(seen), key="display:variants")
+    # fmt_expected
+    lits = [l for l in T.lits if l["fn"].endswith("fmt_expected") and any(g["kind"] == "match" for g in l["guards"])]
+    sep_arms = [([g["pat"] for g in l["guards"] if g["kind"] == "match"][-1], l["value"]) for l in sorted(lits, key=lambda l: l["line"])]
+    item = [m for m in T.macros if m["fn"].endswith("fmt_expected") and m["macro"] == "write"]
+    head = [m for m in T.macros if m["fn"].endswith("fmt_expected") and m["macro"] == "writeln" and m["fmt"] is None]
+    ok = len(item) == 1 and item[0]["fmt"] == "{sep} {e}" and len(head) == 1 and any(g["kind"] == "for" for g in item[0]["guards"]) \
+        and not any(g["kind"] == "for" for g in head[0]["guards"])
+    names = ["a", "b", "c", "d"]
+    renders = {}
+    if ok:
+        for n in range(0, 5):
+            out = "" if n == 0 else "\n"
+            for i in range(n):
+                sep = eval_sep_arms(sep_arms, i, n)
+                if sep is None:
+                    ok = False
+                    break
+                out += "%s %s" % (sep, names[i] if i < 4 else "x")
+            renders[n] = out
+        want = {0: "", 1: "\nExpected one of a", 2: "\nExpected one of a or b", 3: "\nExpected one of a, b or c", 4: "\nExpected one of a, b, c or d"}
+        ok = ok and renders == want
+    rep.ob("display.expected-list-format", "fmt_expected arms %s -> %s" % (sep_arms, {k: v for k, v in renders.items() if k in (1, 3)}), ok,
+           "the expected-token list is not rendered as `Expected one of a, b or c` (abstract evaluation for lengths 0..4 gives %s)" % renders,
+           key="display:expected-format", file="lalrpop-util/src/lib.rs", line=item[0]["line"] if item else 0)
+    # fmt_expected is used by exactly the two Unrecognized* arms, on their own `expected`
+    disp = f.one(r"^<lalrpop_util::ParseError<L, T, E> as std::fmt::Display>::fmt$")
+    fe = [t for _, t in disp.calls() if (callee_of(t) or "").endswith("lalrpop_util::fmt_expected")]
+    vs = set()
+    for t in fe:
+        for d in origins(disp, t["args"][1]):
+            if d[0] == "arg":
+                vs.add(tuple(x for x in d[2] if x in ("UnrecognizedEof", "UnrecognizedToken", "expected")))
+    rep.ob("display.expected-list-attached", "fmt_expected called for %s" % sorted(vs),
+           vs == {("UnrecognizedEof", "expected"), ("UnrecognizedToken", "expected")},
+           "the expected list is not printed for exactly UnrecognizedEof and UnrecognizedToken", key="display:expected-attached",
+           file=disp.relfile(), line=disp.line, fn=disp.path)
